@@ -14,13 +14,23 @@ structure HOut where
   panicked : Bool
 deriving Repr
 
+/-- does the regenerated Sign case start with `batch := PendingBatch(); if batch == nil { reject; return }`? -/
+def nilGuard : Bool :=
+  handlerSignProg.take 2 ==
+    [["call", "s.orderManager.PendingBatch", ""],
+     ["ifnil", "batch", "s.sendRejectUnparsedBatch", "s.sendRejectUnparsedBatch()"]]
+
 /-- hand-written reading of the `Sign` case -/
 def handleSignSpec (s : St) (env : HEnv) : HOut :=
   match s.pending with
   | none =>
-    -- batch == nil: a parse error dereferences it in sendRejectBatch, a parse success in
-    -- `batch.ServerNonces = …`
-    { st := s, trace := [.parseSign], panicked := true }
+    if nilGuard then
+      -- guarded tree: a reject naming the batch id of the message, nothing else
+      { st := s, trace := [.sendReject], panicked := false }
+    else
+      -- unguarded tree, batch == nil: a parse error dereferences it in sendRejectBatch, a parse success
+      -- in `batch.ServerNonces = …`
+      { st := s, trace := [.parseSign], panicked := true }
   | some _ =>
     if !env.parseOk then { st := s, trace := [.parseSign, .sendReject], panicked := false } else
     let s1 := attachAux s env.nonces env.prev
@@ -55,7 +65,8 @@ theorem handleSign_eq_spec (s : St) (env : HEnv) :
   simp only [handlerSignProg, List.foldl]
   cases hp : pending with
   | none =>
-    cases hpo : env.parseOk <;> simp [hsStmt, hpo]
+    have hg : nilGuard = true ∨ nilGuard = false := by decide
+    cases hpo : env.parseOk <;> rcases hg with hg | hg <;> simp [hsStmt, hpo, hg] <;> (revert hg; decide)
   | some b =>
     cases hpo : env.parseOk with
     | false => simp [hsStmt, hpo]
